@@ -47,7 +47,7 @@ class C19(Property):
                          "natLens_chord", "natural_curve_lipschitz_real"]
     partial_theorems = {
         "position_at_zero_first / position_at_one_last / position_at_vertex": "proved in exact arithmetic only (PosLaws: lt irreflexive/asymmetric, 0*x=0, 1*x=x, (b-a)/(b-a)=1 for a<b, x*1=x, a+(b-a)=b; instantiated on Rat) and for strictly increasing lengths with consecutive differences above EPSILON; with zero-length segments the position is the start of a coincident run (tested), in IEEE the equalities hold within 1e-6*scale (tested)",
-        "position_lipschitz": "proved in exact arithmetic only (ExactArith + NormLaws + the curve invariants listed in level_text; instantiated on Rat with the L1 norm on a concrete 3-vertex curve and on the reals with the Euclidean norm = the model's Pos::distance). NOT proved for IEEE floats (tested by the oracle with float slack 4e-6*scale + 1e-5). The hypotheses are necessary: (a) without NonDegenerate the bound is false in exact arithmetic whenever EPSILON > 0, because interpolate_vertices snaps a segment of booked length <= EPSILON to its start (a jump of up to EPSILON) - so the old position_lipschitz_statement, kept in Props/C19.lean, is not provable as written; (b) ChordBound is an inequality: the first segment of an osu!-mode Catmull path books optimized_len on top of its chord (F12) and satisfies it; it fails only when the surplus is negative by IEEE rounding (~ -5e-7 observed) and for the NaN end point of F11; that Curve::new establishes ChordBound is proved for curves without a requested length (natLens_chord + C16 surplus_nonneg; natural_curve_lipschitz_real) and NOT for the re-projected last segment of a length-adjusted curve; StrictSorted/NonDegenerate (no zero-length or sub-EPSILON segment) stay hypotheses - they genuinely fail for duplicate vertices, where the code snaps to the start of the coincident run",
+        "position_lipschitz": "proved in exact arithmetic only (ExactArith + NormLaws + the curve invariants listed in level_text; instantiated on Rat with the L1 norm on a concrete 3-vertex curve and on the reals with the Euclidean norm = the model's Pos::distance). NOT proved for IEEE floats (tested by the oracle with float slack 4e-6*scale + 1e-5). The hypotheses are necessary: (a) without NonDegenerate the bound is false in exact arithmetic whenever EPSILON > 0, because interpolate_vertices snaps a segment of booked length <= EPSILON to its start (a jump of up to EPSILON; argued, the counterexample is not machine-checked: path (0,0),(e,0),(1+e,0), lengths 0,e,1+e with e = EPSILON - distance e is answered with (0,0), distance e+1/2 with (e+1/2,0)) - so the old position_lipschitz_statement, kept in Props/C19.lean, is not provable as written; (b) ChordBound is an inequality: the first segment of an osu!-mode Catmull path books optimized_len on top of its chord (F12) and satisfies it; it fails only when the surplus is negative by IEEE rounding (~ -5e-7 observed) and for the NaN end point of F11; that Curve::new establishes ChordBound is proved for curves without a requested length (natLens_chord + C16 surplus_nonneg; natural_curve_lipschitz_real) and NOT for the re-projected last segment of a length-adjusted curve; StrictSorted/NonDegenerate (no zero-length or sub-EPSILON segment) stay hypotheses - they genuinely fail for duplicate vertices, where the code snaps to the start of the coincident run",
     }
     trusted_base = [
         "Lean 4.33.0 kernel",
